@@ -93,6 +93,10 @@ def key_loop_inv(index):
     return index >= 0
 
 
+def _avps_after_append(avp, old):
+    return seq_snoc(old.self._avps, avp)
+
+
 def _abstract_message(ctx, ns):
     from pyvc.values import SObj, SSeq
     from pyvc.seqs import SymDict
@@ -111,7 +115,8 @@ class _Append:
     loops = {0: Loop(vars={"index": T.Int()}, inv=key_loop_inv)}
     at_calls = True
     accepts = _abstract_message        # concrete messages (known AVP list and names) execute the real body
-    modifies = {"self._avps": T.Seq(AVP_ELEM), "self._header._length": T.Bytes(3)}
+    modifies = {"self._header._length": T.Bytes(3)}
+    defines = {"self._avps": _avps_after_append}
     open_dicts = ("self",)
     raises = ()
 
